@@ -172,7 +172,13 @@ func (f *frame) execInstr(ins ssa.Instruction, in string, st *State) {
 	case *ssa.Next:
 		f.execNext(x, in, st)
 	case *ssa.Defer:
-		f.defers = append(f.defers, deferred{x, in})
+		inLoop := false
+		for _, li := range f.loops {
+			if li.blocks[x.Block()] {
+				inLoop = true
+			}
+		}
+		f.defers = append(f.defers, deferred{x, in, inLoop})
 	case *ssa.RunDefers:
 		f.execRunDefers(in, st)
 	case *ssa.Go:
